@@ -436,6 +436,10 @@ class _Gen:
         if mode == "annot_optional":
             self.optional_annot_names.add(name)
         if mode == "none":
+            if types and d.pct(50):
+                # a functools.partial of an annotated function, types left out: the partial object itself carries
+                # no annotation, so the registration is refused - and, like every refused one, leaves nothing behind
+                op["wrapped_annot"] = types[0]
             op["types"] = []
         if mode == "arg" and d.pct(6 if self.prop in ("C03", "C18") else 2):
             op["none_type"] = True
@@ -764,6 +768,11 @@ class Interp:
             return cb
         mode = op["mode"]
         tt = [TYPES[t] for t in types]
+        if mode == "none" and op.get("wrapped_annot") is not None:
+            import functools
+
+            cb.__annotations__ = {"return": TYPES[op["wrapped_annot"]]}
+            return functools.partial(cb)
         if mode == "annot_single":
             cb.__annotations__ = {"return": tt[0]}
         elif mode == "annot_optional":
@@ -1225,8 +1234,9 @@ class Interp:
             self.check_views("addf", ctx, False, desc)
         else:
             self.n_fail += 1
-            if op["types"]:
-                self.failed_sigs.setdefault(ctx, []).append((op["name"], set(op["types"]), True, desc))
+            probe_types = op["types"] or ([op["wrapped_annot"]] if op.get("wrapped_annot") is not None else [])
+            if probe_types:
+                self.failed_sigs.setdefault(ctx, []).append((op["name"], set(probe_types), True, desc))
             if not reasons:
                 cls = "conflict-spurious" if isinstance(exc, ResourceConflict) else "addf-raised-unexpectedly"
                 self.disc(["conflict"], cls, f"{desc} raised {short_exc(exc)} but the model says it must succeed")
@@ -1239,7 +1249,7 @@ class Interp:
             self.check_views("addf", ctx, True, desc + f" [raised {type(exc).__name__}]")
             # a failed registration must not be usable
             if not self.diverged:
-                for t in op["types"]:
+                for t in probe_types:
                     if self.m.ctxs[ctx].fac.get((t, op["name"])) is None and op["name"] in VALID_NAMES:
                         key = (TYPES[t], op["name"])
                         if key not in self.real[ctx]._resources:
